@@ -7,7 +7,7 @@ package keeper
 //@ accessor get (Keeper) GetMetadata Metadata(dataId)
 //@ accessor set (Keeper) SetMetadata Metadata(metadata.DataId) metadata
 //@ accessor del (Keeper) RemoveMetadata Metadata(dataId)
-//@ store Model kv=model/Model/value/ key=model_ModelKey val=github.com/SaoNetwork/sao/x/model/types.Model
+//@ store Model kv=model/Model/value/ key=model_ModelKey val=github.com/SaoNetwork/sao/x/model/types.Model keyfield=Key
 //@ accessor get (Keeper) GetModel Model(key)
 //@ accessor set (Keeper) SetModel Model(model.Key) model
 //@ accessor del (Keeper) RemoveModel Model(key)
@@ -233,3 +233,36 @@ package keeper
 //@       && Metadata[order.DataId].Orders == old(Metadata[order.DataId].Orders) && Metadata[order.DataId].ReadonlyDids == old(Metadata[order.DataId].ReadonlyDids)
 //@       && Metadata[order.DataId].ReadwriteDids == old(Metadata[order.DataId].ReadwriteDids) && Metadata[order.DataId].DataId == order.DataId
 //@   ensures [C09.inflight.err] err != nil ==> Metadata[order.DataId] == old(Metadata[order.DataId]) && (has(Metadata, order.DataId) <==> old(has(Metadata, order.DataId)))
+
+// GetAllMetadata: the genesis export of the Metadata store - every stored record, each exactly as stored
+//@ func (Keeper) GetAllMetadata(ctx) (list)
+//@   modifies nothing
+//@   ensures [C18.getall.metadata.stored] forall j int :: 0 <= j && j < len(list) ==> has(Metadata, list[j].DataId) && Metadata[list[j].DataId] == list[j]
+//@   ensures [C18.getall.metadata.complete] forall c string :: has(Metadata, c) ==> contains(list, Metadata[c])
+//@   ensures [C18.getall.metadata.distinct] forall a int, b int :: 0 <= a && a < b && b < len(list) ==> list[a].DataId != list[b].DataId
+//@   loop L1 invariant 0 <= itpos() && itpos() <= itlen() && len(list) == itpos()
+//@   loop L1 invariant forall j int :: 0 <= j && j < len(list) ==> list[j] == rawget(Metadata, itkey(j)) && itkey(j) == keyof(Metadata, list[j].DataId)
+//@   loop L1 invariant forall j int :: 0 <= j && j < len(list) ==> contains(list, list[j])
+//@   loop L1 decreases [C02.getall.metadata.term] itlen() - itpos()
+
+// GetAllModel: the genesis export of the Model store - every stored record, each exactly as stored
+//@ func (Keeper) GetAllModel(ctx) (list)
+//@   modifies nothing
+//@   ensures [C18.getall.model.stored] forall j int :: 0 <= j && j < len(list) ==> has(Model, list[j].Key) && Model[list[j].Key] == list[j]
+//@   ensures [C18.getall.model.complete] forall c string :: has(Model, c) ==> contains(list, Model[c])
+//@   ensures [C18.getall.model.distinct] forall a int, b int :: 0 <= a && a < b && b < len(list) ==> list[a].Key != list[b].Key
+//@   loop L1 invariant 0 <= itpos() && itpos() <= itlen() && len(list) == itpos()
+//@   loop L1 invariant forall j int :: 0 <= j && j < len(list) ==> list[j] == rawget(Model, itkey(j)) && itkey(j) == keyof(Model, list[j].Key)
+//@   loop L1 invariant forall j int :: 0 <= j && j < len(list) ==> contains(list, list[j])
+//@   loop L1 decreases [C02.getall.model.term] itlen() - itpos()
+
+// GetAllExpiredData: the genesis export of the ExpiredData store - every stored record, each exactly as stored
+//@ func (Keeper) GetAllExpiredData(ctx) (list)
+//@   modifies nothing
+//@   ensures [C18.getall.expireddata.stored] forall j int :: 0 <= j && j < len(list) ==> has(ExpiredData, list[j].Height) && ExpiredData[list[j].Height] == list[j]
+//@   ensures [C18.getall.expireddata.complete] forall c int :: 0 <= c && c <= MaxUint64 && has(ExpiredData, c) ==> contains(list, ExpiredData[c])
+//@   ensures [C18.getall.expireddata.distinct] forall a int, b int :: 0 <= a && a < b && b < len(list) ==> list[a].Height != list[b].Height
+//@   loop L1 invariant 0 <= itpos() && itpos() <= itlen() && len(list) == itpos()
+//@   loop L1 invariant forall j int :: 0 <= j && j < len(list) ==> list[j] == rawget(ExpiredData, itkey(j)) && itkey(j) == keyof(ExpiredData, list[j].Height)
+//@   loop L1 invariant forall j int :: 0 <= j && j < len(list) ==> contains(list, list[j])
+//@   loop L1 decreases [C02.getall.expireddata.term] itlen() - itpos()
